@@ -23,3 +23,5 @@ mod c04_select;
 mod c07_long;
 #[cfg(kani)]
 mod c08_const;
+#[cfg(kani)]
+mod c10_ctor;
